@@ -15,7 +15,7 @@ MANIFEST = {
 }
 
 CODES = {70: "a program that executes no storage instruction got a non-empty layout",
-         71: "a reported slot is not attributable to any executed storage access", 61: "known K3 (slot taken from a hash-shaped value)",
+         71: "a reported slot is not attributable to any storage access executed on a path of the model's run", 61: "known K3 (slot taken from a hash-shaped value)",
          78: "panic"}
 
 
@@ -52,32 +52,53 @@ def check(ctx):
     stage = vlib.stage_replay(ctx)
     if ctx.replay_in and not stage:
         keys = [bytes.fromhex(json.load(open(ctx.replay_in))["replay"]["code"])]
+    PERM_CFG = L.DEFAULT_CFG[:5] + (1,)
+    dead = gen.dead_storage_programs(rng, bw, 150 if ctx.quick else 2500)
+    perm_keys = [c for c, _ in dead]
+    for c, perm in dead:
+        if not perm:
+            progs.setdefault(c, "dead-storage-after-halt")
+    if not ctx.replay_in:
+        keys = list(progs.keys())
+    groups = [("strict", keys, L.DEFAULT_CFG)]
+    if not ctx.replay_in:
+        # permissive mode: errors of bad jumps are dropped, the thread must still end; plus a sample of the other classes
+        groups.append(("permissive", list(collections.OrderedDict.fromkeys(perm_keys + keys[:: 7])), PERM_CFG))
+    elif ctx.replay_in and not stage and json.load(open(ctx.replay_in))["replay"].get("permissive"):
+        groups = [("permissive", keys, PERM_CFG)]
     if hb and not stage:
-        table = L.keccak_table(hb)
-        vmo = L.vm(ctx, hb, keys)
-        ano = L.analyze(ctx, hb, keys)
-        ok, hashes, diag = vlib.run_harness_sharded(hb, ["key-hashes"], [gen.vm_line(c, L.DEFAULT_CFG) for c in keys])
-        ctx.oblige("harness:key-hashes", "search", ok, diag)
         import re
-        terms = []
-        for v, a, hs in zip(vmo, ano, hashes):
-            consts = set(int(x) for x in re.findall(r"T_KnownData \[(\d+)\]", v))
-            pre = ";".join("(%d,%d)" % (c, table[c]) for c in sorted(consts) if c in table)
-            terms.append(L.hexify("mk_c056case (%s) (%s) [%s] %s" % (v, a, pre, hs if hs.startswith("[") else "[]")))
-        bad = vlib.run_cases(ctx, "attribution", L.HEADER, terms, per_shard=max(1, len(terms) // 32 + 1), fn="c05_code")
-        for idx, code in bad:
-            c = keys[idx]
-            rep = {"code": c.hex(), "meaning": CODES.get(code), "layout": ano[idx][:600],
-                   "how": "echo '<code> 30000000 10 50 250 394 0 100 -1 all' | build/harness-target/debug/slxh analyze  (and ... vm)"}
-            if code == 61:
-                ctx.violate("C05:K3", "slot from a hash-shaped value: %s" % c.hex()[:120], rep)
-            else:
-                ctx.violate("C05:%d:%s" % (code, c.hex()[:48]), "%s: program %s" % (CODES.get(code, code), c.hex()[:160]), rep)
-        nonempty = len([1 for a in ano if ",(AT" in a])
-        ctx.coverage.update({"evaluations": len(keys), "distinct_nontrivial": nonempty + progs_count(progs, "storage-free"),
+        table = L.keccak_table(hb)
+        nonempty = 0
+        aclasses = collections.Counter()
+        for gname, gkeys, gcfg in groups:
+            vmo = L.vm(ctx, hb, gkeys, cfg=gcfg, name="vm:" + gname)
+            ano = L.analyze(ctx, hb, gkeys, cfg=gcfg, name="analyze:" + gname)
+            ok, hashes, diag = vlib.run_harness_sharded(hb, ["key-hashes"], [gen.vm_line(c, gcfg) for c in gkeys])
+            ctx.oblige("harness:key-hashes:" + gname, "search", ok, diag)
+            terms = []
+            for c, v, a, hs in zip(gkeys, vmo, ano, hashes):
+                consts = set(int(x) for x in re.findall(r"T_KnownData \[(\d+)\]", v))
+                pre = ";".join("(%d,%d)" % (k, table[k]) for k in sorted(consts) if k in table)
+                terms.append("(%s, %s)" % (vlib.coq_bytes(c), L.hexify("mk_c056case (%s) (%s) [%s] %s" % (v, a, pre, hs if hs.startswith("[") else "[]"))))
+            bad = vlib.run_cases(ctx, "attribution-" + gname, L.HEADER, terms, per_shard=min(60, max(1, len(terms) // 32 + 1)),
+                                 fn="(fun t => c05m_code (fst t) (%s) (snd t))" % gen.coq_config(gcfg))
+            for idx, code in bad:
+                c = gkeys[idx]
+                rep = {"code": c.hex(), "meaning": CODES.get(code), "layout": ano[idx][:600], "permissive": gcfg[5] == 1,
+                       "how": "echo '<code> 30000000 10 50 250 394 %d 100 -1 all' | build/harness-target/debug/slxh analyze  (and ... vm)" % gcfg[5]}
+                if code == 61:
+                    ctx.violate("C05:K3", "slot from a hash-shaped value: %s" % c.hex()[:120], rep)
+                else:
+                    ctx.violate("C05:%d:%s" % (code, c.hex()[:48]), "%s (%s mode): program %s" % (CODES.get(code, code), gname, c.hex()[:160]), rep)
+            nonempty += len([1 for a in ano if ",(AT" in a])
+            aclasses.update(gname + ":" + str(L.xa_class(a)) for a in ano)
+        ctx.coverage.update({"evaluations": sum(len(g[1]) for g in groups),
+                             "distinct_nontrivial": nonempty + progs_count(progs, "storage-free") + len(perm_keys),
                              "input_classes": dict(collections.Counter(progs.values())),
+                             "permissive_mode_programs": len(groups[1][1]) if len(groups) > 1 else 0,
                              "layouts_with_entries": nonempty,
-                             "analysis_classes": dict(collections.Counter(str(L.xa_class(a)) for a in ano))})
+                             "analysis_classes": dict(aclasses)})
     import p_pipeline
     p_pipeline.suite(ctx, translate=False, codes={11}, cov_key="whole_pipeline_model", only=r"^(pipeline_storage_free|pipeline_table_only|pipeline_check_uses|pipeline_glue|pipeline_rule_order)", part=(0, 3))
     import p_passes_slots
